@@ -146,8 +146,24 @@ def evaluate(prop, cases):
     """run implementation and model on the cases; returns list of verdict dicts (same order)."""
     obs_list = []
     deadline = getattr(prop, "CASE_TIMEOUT", 600)
+    inflight = os.environ.get("VERIF_INFLIGHT")
+    crashed = {}
+    if os.environ.get("VERIF_CRASHED") and os.path.exists(os.environ["VERIF_CRASHED"]):
+        for r in json.load(open(os.environ["VERIF_CRASHED"])):
+            crashed[_key(r["case"])] = r["signal"]
+    crash_kinds = set()
+    if crashed and os.environ.get("VERIF_CRASH_KINDS"):
+        crash_kinds = {r["case"].get("kind") for r in json.load(open(os.environ["VERIF_CRASHED"]))}
     for c in cases:
         try:
+            if crash_kinds and c.get("kind") in crash_kinds and _key(json.loads(json.dumps(c, default=str))) not in crashed:
+                raise RuntimeError("not run: the implementation killed the interpreter on several inputs of this kind in this run")
+            if crashed and _key(json.loads(json.dumps(c, default=str))) in crashed:
+                # an earlier attempt of this run died inside the implementation on exactly this input (harness/main.py)
+                raise RuntimeError(f"the implementation killed the interpreter ({crashed[_key(json.loads(json.dumps(c, default=str)))]}) on this input")
+            if inflight:
+                with open(inflight, "w") as f:
+                    json.dump(c, f, default=str)
             obs_list.append(_with_deadline(prop.run_impl, c, deadline))
         except Exception as e:  # implementation raised on an input the generator considers valid
             obs_list.append({"__exception__": canon.exc_tag(e), "text": f"{type(e).__name__}: {e}"[:300],
